@@ -456,7 +456,7 @@ func (g *Gen) step() {
 		}
 	case "reset":
 		if faulty || len(g.openQueries()) == 0 {
-			g.do("reset")
+			g.doReset()
 			if g.rng.chance(50) {
 				g.do("shape pifncl")
 			}
@@ -1061,7 +1061,7 @@ func (g *Gen) genQuery(faulty bool) {
 		case 3:
 			g.genBatch(false)
 		case 4:
-			g.do("reset")
+			g.doReset()
 		case 5:
 			g.do("reg " + pick(g.rng, []string{"b8", "rel", "relp", "z"}))
 		case 6:
@@ -1228,7 +1228,7 @@ func (g *Gen) genDumpLoad(faulty bool) {
 		if g.rng.chance(30) {
 			k = strconv.Itoa(g.rng.intn(len(g.r.dumps)))
 		}
-		g.do("reset")
+		g.doReset()
 		g.do("load " + k + g.viaJSON())
 		g.do("dump")
 		g.do("shape pif")
@@ -1244,7 +1244,7 @@ func (g *Gen) genDumpLoad(faulty bool) {
 		if g.rng.chance(40) {
 			// roll back: reset and load the same dump again
 			g.do("rm " + g.entRef(false))
-			g.do("reset")
+			g.doReset()
 			g.do("load " + k + g.viaJSON())
 			for _, e := range g.r.dumps[kk].Entities {
 				if !e.IsZero() && g.rng.chance(50) {
@@ -1257,6 +1257,15 @@ func (g *Gen) genDumpLoad(faulty bool) {
 	}
 }
 
+// doReset resets the world and, often, looks a registered resource type up again by its type
+// (out of registration order): ids obtained before a reset stay valid
+func (g *Gen) doReset() {
+	g.do("reset")
+	if n := len(g.r.resIDs); n > 0 && g.rng.chance(60) {
+		g.do(fmt.Sprintf("reslook %d", n-1-g.rng.intn(min(n, 3))))
+	}
+}
+
 func (g *Gen) genResource(faulty bool) {
 	n := len(g.r.resIDs)
 	if n == 0 {
@@ -1265,6 +1274,10 @@ func (g *Gen) genResource(faulty bool) {
 	k := g.rng.intn(n)
 	if g.rng.chance(8) && n < 40 {
 		g.do("resreg")
+		return
+	}
+	if g.rng.chance(10) {
+		g.do(fmt.Sprintf("reslook %d", k))
 		return
 	}
 	switch g.rng.intn(5) {
